@@ -45,7 +45,7 @@ class MgrTwin:
         return self.mgr.step(acts)
 
     def _acting(self, ids):
-        return [k for k in ids if hasattr(self.agents[k], "action_space")]
+        return [k for k in ids if hasattr(self.agents[k], "action_space") and hasattr(self.agents[k], "observation_space")]
 
     def live_after_reset(self, obs):
         return self._acting(obs.keys())
@@ -164,7 +164,7 @@ def build_wrapped(desc, rng):
         inner = MultiCorridor(end=base[1], num_agents=base[2])
         inner_probe = lambda: [[int(a.position) for a in inner.agents.values()] if hasattr(inner, "corridor") else [],
                                dict(getattr(inner, "reward", {}))]
-    learning = [k for k, a in inner.agents.items() if hasattr(a, "action_space")]
+    learning = [k for k, a in inner.agents.items() if hasattr(a, "action_space") and hasattr(a, "observation_space")]
     if wk == 0:
         half = max(1, len(learning) // 2)
         w = SuperAgentWrapper(inner, super_agent_mapping={"super0": learning[:half]})
